@@ -31,6 +31,7 @@ type Hook struct {
 	SigOK  bool
 	Sends  []HookSend
 	Raw    []byte // what is put in MsgFinalizeTokenDeposit.Data
+	Note   string // Kind "rawtx": description of the messages
 }
 
 func (h Hook) Coq() string {
@@ -39,6 +40,8 @@ func (h Hook) Coq() string {
 		return "HNone"
 	case "garbage":
 		return "HGarbage"
+	case "rawtx": // a tx of arbitrary messages: outside the model's hook language, monitor-only
+		return fmt.Sprintf("(HTx %s %s %s [] (* raw tx: %s *))", coqU(h.Signer), coqU(h.TxSeq), coqBool(h.SigOK), h.Note)
 	}
 	items := []string{}
 	for _, s := range h.Sends {
